@@ -466,6 +466,530 @@ pub fn words(list: &[Node], fp: &FinderParams) -> Vec<Word> {
     (0..list.len()).filter(|i| matches!(list[*i], Node::Glue)).filter_map(|g| find_word(list, g, fp)).collect()
 }
 
+// ---------------------------------------------------------------------------------------------------
+// The hyphenation pass itself (§900-918): `hyphenate` and `reconstitute`, transliterated.
+//
+// This is what decides, for a font with an arbitrary lig/kern program, *which* of the Liang positions
+// TeX can offer and what the list looks like afterwards. Lists are `Vec`s instead of linked memory;
+// everything else follows the Pascal text statement by statement (section numbers in comments).
+
+/// `non_char` (§549); any value above every character code.
+const NON_CHAR: u32 = 0x11_0000;
+
+#[derive(Clone, Debug, PartialEq, Eq)]
+pub enum LkOp {
+    /// a kern of this many scaled points
+    Kern(i64),
+    /// `kind` is TeX's `op_byte`: 0 `=:`, 1 `=:|`, 5 `=:|>`, 2 `|=:`, 6 `|=:>`, 3 `|=:|`, 7 `|=:|>`, 11 `|=:|>>`
+    Lig { kind: u8, ch: char },
+}
+
+/// A lig/kern program as a function (left, right) -> instruction (the first instruction of the left
+/// character's program whose `next_char` is `right`, §909). `left = None` is the left boundary program
+/// (`bchar_label`); rules "with the right boundary" are rules whose `right` is the font's `bchar`.
+#[derive(Clone, Debug, Default)]
+pub struct LkFont {
+    pub rules: Vec<(Option<char>, char, LkOp)>,
+    /// `font_bchar` (§549)
+    pub bchar: Option<char>,
+}
+impl LkFont {
+    fn rule(&self, left: u32, right: u32) -> Option<&LkOp> {
+        let l = if left == NON_CHAR { None } else { char::from_u32(left) };
+        let r = char::from_u32(right)?;
+        if left != NON_CHAR && l.is_none() {
+            return None;
+        }
+        self.rules.iter().find(|(a, b, _)| *a == l && *b == r).map(|x| &x.2)
+    }
+    /// `bchar_label[hf] <> non_address`
+    pub fn has_boundary_program(&self) -> bool {
+        self.rules.iter().any(|r| r.0.is_none())
+    }
+}
+
+/// Nodes of a horizontal list as the hyphenation pass sees and produces them.
+#[derive(Clone, Debug, PartialEq, Eq)]
+pub enum TNode {
+    Char(char),
+    Lig { ch: char, orig: Vec<char>, left: bool, right: bool },
+    /// a font kern (subtype normal)
+    Kern(i64),
+    /// a discretionary created by the pass; `at` = the hyphen position (`hyphen_passed`) it stands for
+    Disc { pre: Vec<TNode>, post: Vec<TNode>, replace: usize, at: usize },
+    /// anything else, as the word finder classifies it (glue, penalty, explicit kern, pre-existing disc ...)
+    Other(Node),
+}
+impl TNode {
+    pub fn finder_node(&self) -> Node {
+        match self {
+            TNode::Char(c) => Node::Char { c: *c, font: 0 },
+            TNode::Lig { orig, left, right, .. } => Node::Lig { orig: orig.clone(), font: 0, left_boundary: *left, right_boundary: *right },
+            TNode::Kern(_) => Node::Kern { normal: true },
+            TNode::Disc { .. } => Node::Other,
+            TNode::Other(n) => n.clone(),
+        }
+    }
+}
+
+struct Recon<'a> {
+    font: &'a LkFont,
+    hu: Vec<u32>,
+    hyf: Vec<u8>,
+    // §900 globals
+    init_list: Vec<char>,
+    init_lig: bool,
+    init_lft: bool,
+    hyphen_passed: usize,
+    /// the list that starts at `link(hold_head)`
+    hold: Vec<TNode>,
+}
+
+impl<'a> Recon<'a> {
+    /// §905-911. Returns the new `j`; the translation is in `self.hold`, `self.hyphen_passed` is set.
+    #[allow(unused_assignments)]
+    fn reconstitute(&mut self, mut j: usize, n: usize, mut bchar: u32, mut hchar: u32) -> usize {
+        self.hyphen_passed = 0;
+        self.hold.clear();
+        let mut w: i64 = 0;
+        // "at this point ligature_present = lft_hit = rt_hit = false"
+        let (mut ligature_present, mut lft_hit, mut rt_hit) = (false, false, false);
+        // lig_stack: last element = top; (character, lig_ptr)
+        let mut lig_stack: Vec<(u32, Option<u32>)> = vec![];
+        let (mut cur_r, mut cur_rh): (u32, u32);
+        macro_rules! set_cur_r {
+            () => {{
+                cur_r = if j < n { self.hu[j + 1] } else { bchar };
+                cur_rh = if self.hyf[j] % 2 == 1 { hchar } else { NON_CHAR };
+            }};
+        }
+        macro_rules! push_char {
+            ($c:expr) => {
+                self.hold.push(TNode::Char(char::from_u32($c).expect("a character code")))
+            };
+        }
+        // §908: set up data structures with the cursor following position j
+        let mut cur_l: u32 = self.hu[j];
+        let mut cur_q: usize = self.hold.len();
+        if j == 0 {
+            ligature_present = self.init_lig;
+            if ligature_present {
+                lft_hit = self.init_lft;
+            }
+            for c in self.init_list.clone() {
+                self.hold.push(TNode::Char(c));
+            }
+        } else if cur_l < NON_CHAR {
+            push_char!(cur_l);
+        }
+        set_cur_r!();
+        // §910 wrap_lig(#)
+        macro_rules! wrap_lig {
+            ($flag:expr) => {{
+                if ligature_present {
+                    let orig: Vec<char> = self.hold.split_off(cur_q).into_iter().map(|n| match n {
+                        TNode::Char(c) => c,
+                        other => panic!("model: non-character inside a ligature's original characters: {other:?}"),
+                    }).collect();
+                    let mut left = false;
+                    let mut right = false;
+                    if lft_hit {
+                        left = true;
+                        lft_hit = false;
+                    }
+                    if $flag && lig_stack.is_empty() {
+                        right = true;
+                        rt_hit = false;
+                    }
+                    self.hold.push(TNode::Lig { ch: char::from_u32(cur_l).expect("ligature character"), orig, left, right });
+                    ligature_present = false;
+                }
+            }};
+        }
+        macro_rules! pop_lig_stack {
+            () => {{
+                let (_, ptr) = lig_stack.pop().expect("lig_stack is not empty");
+                if let Some(c) = ptr {
+                    // "this is a charnode for hu[j+1]"
+                    push_char!(c);
+                    j += 1;
+                }
+                if lig_stack.is_empty() {
+                    set_cur_r!();
+                } else {
+                    cur_r = lig_stack.last().unwrap().0;
+                }
+            }};
+        }
+        let mut budget = 10_000; // check_interrupt: an infinite ligature loop never ends in TeX
+        'cont: loop {
+            budget -= 1;
+            if budget == 0 {
+                panic!("model: infinite ligature loop");
+            }
+            // §909: if there's a ligature or kern at the cursor position, update the data structures,
+            // possibly advancing j; continue until the cursor moves
+            'done: {
+                let has_program = if cur_l == NON_CHAR { self.font.has_boundary_program() } else { char::from_u32(cur_l).map(|c| self.font.rules.iter().any(|r| r.0 == Some(c))).unwrap_or(false) };
+                if !has_program {
+                    break 'done;
+                }
+                let test_char = if cur_rh < NON_CHAR { cur_rh } else { cur_r };
+                match self.font.rule(cur_l, test_char).cloned() {
+                    Some(op) => {
+                        if cur_rh < NON_CHAR {
+                            self.hyphen_passed = j;
+                            hchar = NON_CHAR;
+                            cur_rh = NON_CHAR;
+                            continue 'cont;
+                        }
+                        if hchar < NON_CHAR && self.hyf[j] % 2 == 1 {
+                            self.hyphen_passed = j;
+                            hchar = NON_CHAR;
+                        }
+                        match op {
+                            LkOp::Kern(k) => {
+                                w = k;
+                                break 'done;
+                            }
+                            LkOp::Lig { kind, ch } => {
+                                // §911
+                                let rem = ch as u32;
+                                if cur_l == NON_CHAR {
+                                    lft_hit = true;
+                                }
+                                if j == n && lig_stack.is_empty() {
+                                    rt_hit = true;
+                                }
+                                match kind {
+                                    1 | 5 => {
+                                        cur_l = rem;
+                                        ligature_present = true;
+                                    }
+                                    2 | 6 => {
+                                        cur_r = rem;
+                                        if let Some(top) = lig_stack.last_mut() {
+                                            top.0 = cur_r;
+                                        } else if j == n {
+                                            lig_stack.push((cur_r, None));
+                                            bchar = NON_CHAR;
+                                        } else {
+                                            lig_stack.push((cur_r, Some(self.hu[j + 1])));
+                                        }
+                                    }
+                                    3 => {
+                                        cur_r = rem;
+                                        lig_stack.push((cur_r, None));
+                                    }
+                                    7 | 11 => {
+                                        wrap_lig!(false);
+                                        cur_q = self.hold.len();
+                                        cur_l = rem;
+                                        ligature_present = true;
+                                    }
+                                    _ => {
+                                        cur_l = rem;
+                                        ligature_present = true;
+                                        if !lig_stack.is_empty() {
+                                            pop_lig_stack!();
+                                        } else if j == n {
+                                            break 'done;
+                                        } else {
+                                            push_char!(cur_r);
+                                            j += 1;
+                                            set_cur_r!();
+                                        }
+                                    }
+                                }
+                                if kind > 4 && kind != 7 {
+                                    break 'done;
+                                }
+                                continue 'cont;
+                            }
+                        }
+                    }
+                    None => {
+                        if cur_rh == NON_CHAR {
+                            break 'done;
+                        }
+                        cur_rh = NON_CHAR;
+                        continue 'cont;
+                    }
+                }
+            }
+            // done: §910 append a ligature and/or kern to the translation
+            wrap_lig!(rt_hit);
+            if w != 0 {
+                self.hold.push(TNode::Kern(w));
+                w = 0;
+            }
+            if !lig_stack.is_empty() {
+                cur_q = self.hold.len();
+                cur_l = lig_stack.last().unwrap().0;
+                ligature_present = true;
+                pop_lig_stack!();
+                continue 'cont;
+            }
+            break;
+        }
+        let _ = (rt_hit, lft_hit, cur_rh);
+        j
+    }
+}
+
+/// Parameters of the pass that are not in the list.
+pub struct PassParams<'a> {
+    /// §923 + §930-931: the `hyf` array (length n+1, before the minima) of a lower-cased word; normally
+    /// `|w| lang.hyf(w)`, a parameter so that callers can memoise it
+    pub hyf: &'a dyn Fn(&[char]) -> Vec<u8>,
+    pub lc: &'a dyn Fn(char) -> Option<char>,
+    pub uc_hyph: bool,
+    pub l_hyf: usize,
+    pub r_hyf: usize,
+    pub hyphen_char: char,
+    /// D21 switch: when true the word is always rebuilt with left-boundary processing and nothing
+    /// before the first letter is taken into the reconstitution (what the crate does); when false
+    /// TeX §903 decides.
+    pub always_left_boundary: bool,
+    /// D21 switch, second half: when true a word without any permitted hyphen is rebuilt as well
+    /// (TeX returns at §902 and leaves the nodes alone).
+    pub always_rebuild: bool,
+    /// D21b switch: when true a character or ligature node directly before the first letter is not
+    /// taken as the left context of the rebuilt word (TeX §903 makes it `hu[0]` with `j = 0`); the word
+    /// is rebuilt from its first letter as if a glue or kern preceded it.
+    pub ignore_left_context: bool,
+}
+
+/// §902-903 + §913-918 for one word found by `find_word`. `list` is the whole list; returns the nodes
+/// that replace `list[from..=w.hb]` together with `from` (`w.ha` when the node `ha` itself is rebuilt,
+/// else `w.ha + 1`), or `None` when TeX leaves the word alone (no odd `hyf` within the minima, §902).
+pub fn hyphenate_word(list: &[TNode], w: &Word, font: &LkFont, pp: &PassParams) -> Option<(usize, Vec<TNode>)> {
+    let hn = w.letters.len();
+    let wl: Vec<char> = w.letters.iter().map(|c| (pp.lc)(*c).expect("a word consists of letters")).collect();
+    // §923 (+ §930-931), then the minima
+    let mut hyf = (pp.hyf)(&wl);
+    for (j, h) in hyf.iter_mut().enumerate() {
+        if j < pp.l_hyf || j + pp.r_hyf > hn {
+            *h = 0;
+        }
+    }
+    hyf.push(0);
+    hyf.push(0);
+    // §902: look for an odd hyf[j]
+    if !pp.always_rebuild && !(pp.l_hyf..=hn.saturating_sub(pp.r_hyf)).any(|j| hyf[j] % 2 == 1) {
+        return None;
+    }
+    let mut hu: Vec<u32> = vec![0; hn + 3];
+    for (k, c) in w.letters.iter().enumerate() {
+        hu[k + 1] = *c as u32;
+    }
+    hu[hn + 1] = NON_CHAR; // never read as a letter: set_cur_r uses bchar when j = n
+    let bchar: u32 = match w.bchar {
+        Bchar::NonChar => NON_CHAR,
+        Bchar::Font => font.bchar.map(|c| c as u32).unwrap_or(NON_CHAR),
+        Bchar::Char(c) => c as u32,
+    };
+    let mut rc = Recon { font, hu, hyf, init_list: vec![], init_lig: false, init_lft: false, hyphen_passed: 0, hold: vec![] };
+    // §903: replace nodes ha..hb by a sequence of nodes that includes the discretionary hyphens
+    let ha = &list[w.ha];
+    let r = &list[w.ha + 1];
+    let from: usize;
+    let mut j: usize;
+    if pp.always_left_boundary {
+        from = w.ha + 1;
+        j = 0;
+        rc.hu[0] = NON_CHAR;
+    } else {
+        let no_context = TNode::Other(Node::Glue);
+        match if pp.ignore_left_context && !matches!(ha, TNode::Lig { orig, left: true, .. } if orig.is_empty()) { &no_context } else { ha } {
+            TNode::Char(c) => {
+                // (same font: the model has one font)
+                rc.init_list = vec![*c];
+                rc.init_lig = false;
+                rc.hu[0] = *c as u32;
+                from = w.ha;
+                j = 0;
+            }
+            TNode::Lig { ch, orig, left, .. } => {
+                rc.init_list = orig.clone();
+                rc.init_lig = true;
+                rc.init_lft = *left;
+                rc.hu[0] = *ch as u32;
+                if rc.init_list.is_empty() && rc.init_lft {
+                    rc.hu[0] = NON_CHAR;
+                    rc.init_lig = false; // in this case a ligature will be reconstructed from scratch
+                }
+                from = w.ha;
+                j = 0;
+            }
+            _ => {
+                // no punctuation found; look for left boundary
+                from = w.ha + 1;
+                if matches!(r, TNode::Lig { left: true, .. }) {
+                    // found2
+                    j = 0;
+                    rc.hu[0] = NON_CHAR;
+                    rc.init_lig = false;
+                    rc.init_list = vec![];
+                } else {
+                    j = 1;
+                    rc.init_list = vec![];
+                }
+            }
+        }
+    }
+    let hyf_char = pp.hyphen_char as u32;
+    let font_bchar = font.bchar.map(|c| c as u32).unwrap_or(NON_CHAR);
+    let mut out: Vec<TNode> = vec![];
+    // §913
+    loop {
+        let mut l = j;
+        j = rc.reconstitute(j, hn, bchar, hyf_char) + 1;
+        if rc.hyphen_passed == 0 {
+            out.append(&mut rc.hold);
+            if rc.hyf[j - 1] % 2 == 1 {
+                l = j;
+                rc.hyphen_passed = j - 1;
+                rc.hold.clear();
+            }
+        }
+        if rc.hyphen_passed > 0 {
+            // §914
+            loop {
+                let mut major: Vec<TNode> = std::mem::take(&mut rc.hold);
+                let mut i = rc.hyphen_passed;
+                let at = i;
+                rc.hyf[i] = 0;
+                // §915: put the characters hu[l..i] and a hyphen into pre_break(r)
+                let mut pre: Vec<TNode> = vec![];
+                i += 1;
+                let mut c = rc.hu[i];
+                rc.hu[i] = hyf_char;
+                while l <= i {
+                    l = rc.reconstitute(l, i, font_bchar, NON_CHAR) + 1;
+                    pre.append(&mut rc.hold);
+                }
+                rc.hu[i] = c;
+                l = i;
+                i -= 1;
+                let _ = i;
+                // §916: put the characters hu[i+1..] into post_break(r), appending to this list and to
+                // major_tail until synchronization has been achieved
+                let mut post: Vec<TNode> = vec![];
+                let mut c_loc = 0usize;
+                if font.has_boundary_program() {
+                    l -= 1;
+                    c = rc.hu[l];
+                    c_loc = l;
+                    rc.hu[l] = NON_CHAR;
+                }
+                while l < j {
+                    loop {
+                        l = rc.reconstitute(l, hn, bchar, NON_CHAR) + 1;
+                        if c_loc > 0 {
+                            rc.hu[c_loc] = c;
+                            c_loc = 0;
+                        }
+                        post.append(&mut rc.hold);
+                        if l >= j {
+                            break;
+                        }
+                    }
+                    while l > j {
+                        // §917
+                        j = rc.reconstitute(j, hn, bchar, NON_CHAR) + 1;
+                        major.append(&mut rc.hold);
+                    }
+                }
+                if c_loc > 0 {
+                    // (the loop body did not run: restore the character; TeX leaves hu[c_loc] = 256
+                    // here, which is never read again because l = j)
+                    rc.hu[c_loc] = c;
+                }
+                // §918
+                if major.len() > 127 {
+                    out.append(&mut major);
+                } else {
+                    out.push(TNode::Disc { pre, post, replace: major.len(), at });
+                    out.append(&mut major);
+                }
+                rc.hyphen_passed = j - 1;
+                rc.hold.clear();
+                if rc.hyf[j - 1] % 2 == 0 {
+                    break;
+                }
+            }
+        }
+        if j > hn {
+            break;
+        }
+    }
+    Some((from, out))
+}
+
+/// The whole pass over a list (§866/§894: one attempt per glue node, left to right).
+pub fn hyphenate_list(list: &[TNode], font: &LkFont, pp: &PassParams) -> Vec<TNode> {
+    let mut cur: Vec<TNode> = list.to_vec();
+    let mut g = 0;
+    while g < cur.len() {
+        if matches!(cur[g], TNode::Other(Node::Glue)) {
+            let nodes: Vec<Node> = cur.iter().map(|n| n.finder_node()).collect();
+            // (with the `always_rebuild` switch the length test of §899 is dropped as well)
+            let (fl, fr) = if pp.always_rebuild { (0, 0) } else { (pp.l_hyf, pp.r_hyf) };
+            let fp = FinderParams { lc: pp.lc, uc_hyph: pp.uc_hyph, l_hyf: fl, r_hyf: fr, hyphen_char_ok: &|_| true };
+            if let Some(w) = find_word(&nodes, g, &fp) {
+                if let Some((from, new_nodes)) = hyphenate_word(&cur, &w, font, pp) {
+                    cur.splice(from..=w.hb, new_nodes);
+                }
+            }
+        }
+        g += 1;
+    }
+    cur
+}
+
+/// A run of characters typeset from scratch with left and right boundary processing, by the same
+/// cursor machine (`reconstitute` with no hyphens is TeX's main loop §1034-1040 minus the insertion of
+/// empty discretionaries after the hyphen character, which the caller adds).
+pub fn typeset_run(font: &LkFont, chars: &[char]) -> Vec<TNode> {
+    let n = chars.len();
+    if n == 0 {
+        return vec![];
+    }
+    let mut hu: Vec<u32> = vec![NON_CHAR; n + 3];
+    for (k, c) in chars.iter().enumerate() {
+        hu[k + 1] = *c as u32;
+    }
+    let mut rc = Recon { font, hu, hyf: vec![0; n + 3], init_list: vec![], init_lig: false, init_lft: false, hyphen_passed: 0, hold: vec![] };
+    let bchar = font.bchar.map(|c| c as u32).unwrap_or(NON_CHAR);
+    let mut out = vec![];
+    let mut j = 0;
+    loop {
+        j = rc.reconstitute(j, n, bchar, NON_CHAR) + 1;
+        out.append(&mut rc.hold);
+        if j > n {
+            break;
+        }
+    }
+    out
+}
+
+/// Compact rendering used by the checks: `c:a` character, `l:x<ab>LR` ligature x from "ab" with
+/// boundary flags, `k` font kern, `d[pre|post|n]` discretionary, `g` glue, `o` anything else.
+pub fn render(list: &[TNode]) -> String {
+    list.iter().map(render1).collect::<Vec<_>>().join(" ")
+}
+fn render1(n: &TNode) -> String {
+    match n {
+        TNode::Char(c) => format!("c:{c}"),
+        TNode::Lig { ch, orig, left, right } => format!("l:{ch}<{}>{}{}", orig.iter().collect::<String>(), if *left { "L" } else { "" }, if *right { "R" } else { "" }),
+        TNode::Kern(_) => "k".into(),
+        TNode::Disc { pre, post, replace, .. } => format!("d[{}|{}|{}]", render(pre), render(post), replace),
+        TNode::Other(Node::Glue) => "g".into(),
+        TNode::Other(_) => "o".into(),
+    }
+}
+
 #[cfg(test)]
 mod tests {
     use super::*;
@@ -488,6 +1012,32 @@ mod tests {
         assert_eq!(pos("1a", &[], "aaa"), vec![1, 2]);
         assert_eq!(pos("a9b", &["ab"], "AB"), Vec::<usize>::new());
         assert_eq!(pos("", &["a-b-a"], "ABA"), vec![1, 2]);
+    }
+
+    /// Three of the crate's TeX-verified cases (crates/boxworks-hyphenate/src/lib.rs: lig_1,
+    /// left_boundary_char_1, difficult); the check binary c14 replays all 33.
+    #[test]
+    fn pass_reproduces_tex() {
+        let run = |rules: Vec<(Option<char>, char, LkOp)>, word: &str, exc: &str, l_hyf: usize| -> String {
+            let font = LkFont { rules, bchar: None };
+            let mut list = typeset_run(&font, &['x']);
+            list.push(TNode::Other(Node::Glue));
+            list.extend(typeset_run(&font, &word.chars().collect::<Vec<_>>()));
+            let mut lang = Liang::new();
+            lang.add_exception(exc, &ascii_lc);
+            let hyf = |w: &[char]| lang.hyf(w);
+            let pp = PassParams { hyf: &hyf, lc: &ascii_lc, uc_hyph: true, l_hyf, r_hyf: 1, hyphen_char: '-', always_left_boundary: false, always_rebuild: false, ignore_left_context: false };
+            render(&hyphenate_list(&list, &font, &pp)[2..])
+        };
+        // ab -> axb^   (|=:|>>)
+        assert_eq!(run(vec![(Some('a'), 'b', LkOp::Lig { kind: 11, ch: 'x' })], "ab", "a-b", 1), "d[c:a c:-||2] c:a l:x<> c:b");
+        // |b -> |c^_   (left boundary, =:)
+        assert_eq!(run(vec![(None, 'b', LkOp::Lig { kind: 0, ch: 'c' })], "ab", "a-b", 1), "c:a d[c:-|l:c<b>L|1] c:b");
+        // ff -> 0, 0i -> 1
+        assert_eq!(
+            run(vec![(Some('f'), 'f', LkOp::Lig { kind: 0, ch: '0' }), (Some('0'), 'i', LkOp::Lig { kind: 0, ch: '1' })], "difficult", "d-if-fi-cult", 3),
+            "c:d c:i d[c:f c:-|c:f c:i|1] l:1<ffi> d[c:-||0] c:c c:u c:l c:t"
+        );
     }
 
     #[test]
